@@ -3,7 +3,7 @@ import vlib
 from checks import e1
 
 ELEMS = {"TC4": 4, "TR": 20, "NTR": 21}
-CMPS = {"less": 0, "greater": 1, "coarse": 2, "stateful": 3, "transparent": 4}
+CMPS = {"less": 0, "greater": 1, "coarse": 2, "stateful": 3, "transparent": 4, "selfptr": 5}
 VECS = {"amcvector": 0, "smallvector2": 1, "fixed8": 2, "stdvector": 3}
 BACKS = {"stdset": 0, "flatset": 1}
 ALLOCS = {"amc": 0, "ledgerstd": 2}
